@@ -30,8 +30,6 @@ Definition list_eqbZ := fix go (x y : list Z) : bool :=
   | _, _ => false
   end.
 
-Definition sumZ (l : list Z) : Z := fold_left Z.add l 0.
-
 Definition vstate := option (Z * list Z * list Z).
 
 (** one iteration of the loop of BlockAssembler._verify_shape;
